@@ -170,6 +170,7 @@ class Layout:
 
     def __init__(self, tu, repo, workdir):
         self.size = {}
+        self.default = {}  # record -> bytes of a default-initialised object (only if independent of the storage's prior content)
         self.field = {}   # (record, field) -> (offset, size)
         recs = []
         for r in tu.records():
@@ -183,8 +184,17 @@ class Layout:
         recs = sorted(set((q, tuple(f)) for q, f in recs))
         hdrs = sorted(f for f in os.listdir(os.path.join(repo, "include", "asam_cmp")) if f.endswith(".h"))
         src = "".join("#include <asam_cmp/%s>\n" % h for h in hdrs)
-        src += "#include <cstdio>\n#include <cstddef>\nint main(){\n"
+        src += "#include <cstdio>\n#include <cstddef>\n#include <cstring>\n#include <new>\n#include <type_traits>\n"
+        # bytes of a default-initialised object (`T x;`), if they do not depend on what the storage held before
+        src += ("template <class T> void dumpDefault(const char* name) {\n"
+                "  if constexpr (std::is_default_constructible_v<T> && std::is_trivially_copyable_v<T> && std::is_trivially_destructible_v<T>) {\n"
+                "    alignas(16) unsigned char a[sizeof(T)], b[sizeof(T)]; memset(a, 0x00, sizeof(T)); memset(b, 0xAA, sizeof(T));\n"
+                "    new (a) T; new (b) T;\n"
+                "    if (memcmp(a, b, sizeof(T)) == 0) { printf(\"D %s \", name); for (size_t i = 0; i < sizeof(T); ++i) printf(\"%02x\", a[i]); printf(\"\\n\"); }\n"
+                "  }\n}\n")
+        src += "int main(){\n"
         for q, fs in recs:
+            src += '  dumpDefault<%s>("%s");\n' % (q, q)
             src += '  printf("S %s %%zu\\n", sizeof(%s));\n' % (q, q)
             for f in fs:
                 src += '  printf("F %s %s %%zu %%zu\\n", (size_t)offsetof(%s, %s), sizeof(((%s*)0)->%s));\n' % (q, f, q, f, q, f)
@@ -205,6 +215,8 @@ class Layout:
                 self.size[w[1]] = int(w[2])
             elif w[0] == "F":
                 self.field[(w[1], w[2])] = (int(w[3]), int(w[4]))
+            elif w[0] == "D":
+                self.default[w[1]] = bytes.fromhex(w[2]) if len(w) > 2 else b""
 
     def sizeof_name(self, q):
         q = strip_cv(q)
